@@ -1,6 +1,7 @@
 import GlueVerif.Lemmas.ArrayUtil
 import GlueVerif.Lemmas.C20Combine
 import GlueVerif.Lemmas.C20Loop
+import GlueVerif.Lemmas.C20Layout
 /-!
 # C20 — chunk, slice and broadcast helpers are exact
 
@@ -183,5 +184,84 @@ theorem iterateChunks_entry_chunkShape (shape chunk : List Nat) (hlen : chunk.le
 /-- `ndim = 0`: one element, one (empty) chunk — with either way of calling. -/
 example : iterateChunks [] none (some 5) = .ok [[]] ∧ iterateChunks [] (some []) none = .ok [[]] ∧
     specIter [] none (some 5) [[]] = true := ⟨rfl, rfl, by decide⟩
+
+end GlueVerif.C20
+
+-- ## Round 3: memory layout is not an input of the helpers (x3-C20)
+namespace GlueVerif.C20
+open GlueVerif.ArrayUtil
+
+/-- **`unique` does not depend on the memory layout.**  The model takes the *logical* array (shape and
+row-major values as plain indexing sees them) and a `Layout` tag (C / Fortran order, axis permutation,
+step-sliced views, negative strides, stride-0 axes, byte order, read-only); for any two tags the
+result is the same, and it satisfies the property: sorted unique categories, index array of the
+array's shape with `U[I] = array` element by element. -/
+theorem unique_layout_independent (l l' : Layout) (a : NdArr) :
+    uniqueNd l a = uniqueNd l' a ∧ specUniqueNd a (uniqueNd l a) = true := by
+  refine ⟨rfl, ?_⟩
+  simp only [specUniqueNd, uniqueNd, beq_self_eq_true, Bool.true_and]
+  exact Lemmas.specUnique_model a.vals
+
+example : uniqueNd ⟨true, [1, 0, 2], [0, 1, 0], [false, true, false], [], true, true⟩ ⟨[2, 2], [3, 1, 3, 2]⟩ =
+    ([1, 2, 3], [2, 2], [2, 0, 2, 1]) := by decide
+
+/-- `index_lookup(array, items)` on a logical array: codes of the array's shape that point at the
+values, withheld only for values that are not items — under every layout. -/
+theorem lookupNd_spec (l : Layout) (items : List Int) (a : NdArr) :
+    specLookupNd items a (lookupNd l items a) = true := by
+  simp only [specLookupNd, lookupNd, beq_self_eq_true, Bool.true_and]
+  exact Lemmas.specLookup_model items a.vals
+
+/-- A categorical array derived from a parent (a view / slice / transpose / re-ordered copy, whose
+layout is whatever numpy made it): inherited categories are sorted and contain every value, and
+`categories[codes] == values` with no code withheld — under every layout. -/
+theorem derivedNd_spec (l : Layout) (parent : List Int) (a : NdArr) (hsub : ∀ x ∈ a.vals, x ∈ parent) :
+    specDerivedNd a (derivedNd l parent a) = true := by
+  simp only [specDerivedNd, derivedNd, Bool.and_eq_true, List.all_eq_true]
+  refine ⟨⟨⟨Lemmas.strictSorted_categories parent, ?_⟩, lookupNd_spec l _ a⟩, ?_⟩
+  · intro x hx
+    simpa using (Lemmas.mem_categories x parent).mpr (hsub x hx)
+  · exact Lemmas.lookupCodes_some_of_subset parent a.vals hsub
+
+/-- **`unbroadcast` on logical arrays**: for every layout whose stride-0 axes are axes along which the
+array is constant (what stride 0 means), the result broadcasts back to the input's shape and
+reproduces the logical array; 0-d and empty arrays are returned unchanged. -/
+theorem unbroadcastNd_roundtrip (l : Layout) (a : NdArr) (hwf : a.wf = true)
+    (hc : constAlong l.bcast a.shape a.vals = true) :
+    specUnbNd a (unbroadcastNd l a) = true := by
+  have hv : a.vals.length = prod a.shape := by simpa [NdArr.wf] using hwf
+  unfold specUnbNd unbroadcastNd broadcastBack
+  split
+  · simp only [Lemmas.C20Layout.bcCompatible_self, hwf, Bool.true_and, decide_eq_true_eq]
+    rw [Lemmas.C20Layout.expand_self a.shape a.vals hv]
+  · rename_i hne
+    have hp : prod a.shape ≠ 0 := fun h0 => hne (Or.inr h0)
+    have hpos := Lemmas.C20Layout.pos_of_prod_ne_zero a.shape hp
+    simp only [Lemmas.C20Layout.bcCompatible_collapsed, NdArr.wf, Bool.true_and, Bool.and_eq_true,
+      beq_iff_eq, decide_eq_true_eq]
+    refine ⟨Lemmas.C20Layout.length_collapse _ _ _ hpos hv, ?_⟩
+    rw [Lemmas.C20Layout.expand_collapse _ _ _ hpos hv hc]
+
+example : unbroadcastNd ⟨false, [], [], [], [true, false], false, true⟩ ⟨[3, 2], [5, 7, 5, 7, 5, 7]⟩ = ⟨[1, 2], [5, 7]⟩ ∧
+    constAlong [true, false] [3, 2] [5, 7, 5, 7, 5, 7] = true := by decide
+
+/-- **The helpers depend on the logical array only.**  For any two layout tags of the same logical
+array: `unique`, `index_lookup`, derived categorical arrays, `check_sorted` and `coerce_numeric` give
+the same result; `unbroadcast` — the one helper whose result *shape* reads the strides (and with it
+`broadcast_arrays_minimal`, which broadcasts the unbroadcast arrays to the *smallest* common shape) —
+gives, under both tags, an array that broadcasts back to the very same logical array. -/
+theorem helpers_depend_on_logical_array_only (l l' : Layout) (a : NdArr) (items parent : List Int) :
+    uniqueNd l a = uniqueNd l' a ∧ lookupNd l items a = lookupNd l' items a ∧
+    derivedNd l parent a = derivedNd l' parent a ∧
+    sortedNd l a = sortedNd l' a ∧ coerceNd l a = coerceNd l' a ∧
+    (a.wf = true → constAlong l.bcast a.shape a.vals = true →
+      constAlong l'.bcast a.shape a.vals = true →
+      broadcastBack a (unbroadcastNd l a) = a ∧ broadcastBack a (unbroadcastNd l' a) = a) := by
+  refine ⟨rfl, rfl, rfl, rfl, rfl, ?_⟩
+  intro hwf hc hc'
+  have h1 := unbroadcastNd_roundtrip l a hwf hc
+  have h2 := unbroadcastNd_roundtrip l' a hwf hc'
+  simp only [specUnbNd, Bool.and_eq_true, decide_eq_true_eq] at h1 h2
+  exact ⟨h1.2, h2.2⟩
 
 end GlueVerif.C20
